@@ -712,7 +712,7 @@ CHECKS = {
                           'FastPasta.C10.step_inv', 'FastPasta.C10.expectedPage_snoc', 'FastPasta.C10.run_spec',
                           # tie by translation (tools/rs2lean.py -> Spec/RdhSrcGen.lean): loader, accessors, RdhCruSanityValidator and its constructors
                           'FastPasta.C10.sanity_src_iff', 'FastPasta.C10.validator_states_src', 'FastPasta.C10.loader_src',
-                          'FastPasta.C10.running_src_iff', 'FastPasta.C10.srcRunFlags_eq', 'FastPasta.C10.running_src_code', 'FastPasta.C10.validator_for_config_src']),
+                          'FastPasta.C10.running_src_iff', 'FastPasta.C10.srcRunFlags_eq', 'FastPasta.C10.running_src_code', 'FastPasta.C10.validator_for_config_src', 'FastPasta.C10.link_rdh_checks_src']),
     'C11': dict(modules=['FastPasta.Props.C11'], needs_harness=True, corr='word_sanity', run=run_c11,
                 theorems=['FastPasta.C11.ihw_sane_iff', 'FastPasta.C11.tdh_sane_iff', 'FastPasta.C11.tdt_sane_iff', 'FastPasta.C11.ddw0_sane_iff',
                           'FastPasta.C11.data_reported_iff', 'FastPasta.C11.data_reported_sanity_iff', 'FastPasta.C11.valid_id_iff',
